@@ -11,10 +11,20 @@
    Secrecy of a sealed segment (IND-CPA of AES-CTR) is NOT modelled; the model states where plaintext can
    occur at all (only as an argument of [seal]) and that no (key, nonce) pair is used twice.
 
+   Concurrency: the ops of several goroutines (blob savers, pack uploaders, index/snapshot savers) interleave;
+   [run] takes ANY list of ops, so every interleaving at op granularity is covered — PROVIDED each draw claims
+   its stream position atomically (draws are linearisable).  That hypothesis is made explicit by the generator
+   model [gstep] below: an atomic draw ([EAtomic], what crypto/rand.Read provides) versus a generator whose
+   read-position and advance steps can interleave ([ERead]/[EAdvance], e.g. an unsynchronised user-space PRNG).
+   The stress family of the engine (concurrent NewRandomNonce draws, concurrent SaveBlobAsync savers) is the
+   check of that hypothesis on the real code: code 5.
+
    check_case codes: 0 ok; 1 scanner control failed (the deliberately public key-file markers were not found);
      2 a stored file is not completely made of sealed segments / nonces / the header length field / key-file
        public JSON (a byte outside any segment, a segment that does not authenticate, an unknown key-file field);
-     3 a nonce occurs twice or is all-zero;  4 a plaintext marker occurs in the stored bytes. *)
+     3 a nonce occurs twice or is all-zero;  4 a plaintext marker occurs in the stored bytes;
+     5 concurrent draws / concurrent savers produced a repeated nonce (draws are not linearisable) or fewer
+       objects than were saved. *)
 From Restic Require Import Base.Prelude.
 
 Module C04m.
@@ -101,6 +111,38 @@ Definition used_pairs (st : state) : list (keyclass * bytes) := map (fun u => (f
 
 End Generic.
 
+(* ---------- the random generator under concurrency ---------- *)
+Inductive gev :=
+| EAtomic (g : nat)        (* goroutine g draws: position claimed and advanced in one indivisible step *)
+| ERead (g : nat)          (* non-atomic generator: g reads the current position ... *)
+| EAdvance (g : nat).      (* ... and later stores position+1 and returns the bytes at the position it read *)
+
+Record gstate := mkg {
+  gnext : nat;                       (* the generator's position *)
+  gpend : list (nat * nat);          (* goroutine -> position it has read but not yet advanced *)
+  ggot : list (nat * nat)            (* (goroutine, position) of every completed draw *)
+}.
+Definition ginit : gstate := mkg 0 [] [].
+
+Fixpoint pend_find (g : nat) (l : list (nat * nat)) : option nat :=
+  match l with [] => None | (h, p) :: r => if Nat.eqb h g then Some p else pend_find g r end.
+Fixpoint pend_remove (g : nat) (l : list (nat * nat)) : list (nat * nat) :=
+  match l with [] => [] | (h, p) :: r => if Nat.eqb h g then pend_remove g r else (h, p) :: pend_remove g r end.
+
+Definition gstep (st : gstate) (e : gev) : gstate :=
+  match e with
+  | EAtomic g => mkg (S (gnext st)) (gpend st) ((g, gnext st) :: ggot st)
+  | ERead g => mkg (gnext st) ((g, gnext st) :: pend_remove g (gpend st)) (ggot st)
+  | EAdvance g =>
+      match pend_find g (gpend st) with
+      | Some p => mkg (S p) (pend_remove g (gpend st)) ((g, p) :: ggot st)
+      | None => st
+      end
+  end.
+Definition grun (sched : list gev) : gstate := fold_left gstep sched ginit.
+Definition atomic_only (sched : list gev) : bool :=
+  forallb (fun e => match e with EAtomic _ => true | _ => false end) sched.
+
 (* ---------- observed repositories ---------- *)
 (* tiling of a pack file by its header entries (offset, length), in offset order *)
 Fixpoint tiles (pos : N) (entries : list (N * N)) : option N :=
@@ -125,7 +167,9 @@ Inductive fobs :=
 Record case := mkcase {
   c_files : list fobs;
   c_hits : list (bool * bool);     (* marker found: (in a key file?, is it a key-file public-info marker?) *)
-  c_public_expected : nat          (* number of public markers deliberately put into key files *)
+  c_public_expected : nat;         (* number of public markers deliberately put into key files *)
+  c_conc : list (N * N * N * list bytes)
+    (* concurrency families: (objects expected at least, nonces collected, distinct nonces, sample of repeated nonces) *)
 }.
 
 Definition file_ok (f : fobs) : bool :=
@@ -155,12 +199,21 @@ Definition layout_ok (c : case) : bool := forallb file_ok (c_files c).
 Definition nonces_ok (c : case) : bool := nodupb (all_nonces c) && forallb nonzero_nonce (all_nonces c).
 Definition no_leak (c : case) : bool := forallb (fun h => fst h && snd h) (c_hits c).
 
-Definition check_C04 (c : case) : bool := layout_ok c && nonces_ok c && no_leak c.
+(* the linearisability hypothesis, checked: concurrent draws never return the same bytes *)
+Definition conc_ok (c : case) : bool :=
+  forallb (fun o => match o with
+                    | (expected, collected, distinct, dups) =>
+                        ((expected <=? collected) && (collected =? distinct))%N &&
+                        match dups with [] => true | _ => false end
+                    end) (c_conc c).
+
+Definition check_C04 (c : case) : bool := layout_ok c && nonces_ok c && no_leak c && conc_ok c.
 
 Definition check_case (c : case) : nat :=
   if negb (layout_ok c) then 2
   else if negb (nonces_ok c) then 3
   else if negb (no_leak c) then 4
+  else if negb (conc_ok c) then 5
   else if Nat.eqb (length (c_hits c)) (c_public_expected c) then 0 else 1.
 
 End C04m.
